@@ -379,6 +379,56 @@ theorem perturbative_zero_cr (order : Nat) (ho : order ≤ 4) (alpha : List ℝ)
   · simp only [expoInterval, Nat.reduceEqDiff, ↓reduceIte]
     rw [← hg1, e1, ← hg2, e2, ← hg3, e3, ← hg4, e4]
 
+/-- the perturbative loop at zero Raman efficiency multiplies every frequency by `pertFactor` -/
+theorem perturbGo_zero_cr (order : Nat) (ho : order ≤ 4) (alpha : List ℝ) (cr : List (List ℝ)) (hz : MZero cr)
+    (hl : cr.length = alpha.length) :
+    ∀ (fuel : Nat) (pin : List ℝ) (ll : ℝ) (grid : List (ℝ × ℝ)) (acc : List (List ℝ)), pin.length = alpha.length →
+      (perturbGo order alpha cr fuel pin ll grid acc).2 = scaleBy (fun a => pertFactor a fuel ll grid) pin alpha := by
+  intro fuel
+  induction fuel with
+  | zero => intro pin ll grid acc h; simp [perturbGo, pertFactor, scaleBy_one pin alpha h]
+  | succ fuel ih =>
+    intro pin ll grid acc h
+    cases grid with
+    | nil => simp [perturbGo, pertFactor, scaleBy_one pin alpha h]
+    | cons g0 rest =>
+      cases rest with
+      | nil => simp [perturbGo, pertFactor, scaleBy_one pin alpha h]
+      | cons g1 rest' =>
+        simp only [perturbGo, pertFactor]
+        have hzs : (takeInterval (g0 :: g1 :: rest')).1.map (fun g => g.1 - g0.1) ≠ [] := by
+          simp [takeInterval]
+        have hstep : ((powerInterval order alpha cr (pin.map (fun x => x * ll))
+              ((takeInterval (g0 :: g1 :: rest')).1.map (fun g => g.1 - g0.1))).zip pin).map
+              (fun x => lastD x.2 x.1)
+            = scaleBy (fun a => ll * Real.exp (-(a * lastD 0
+                ((takeInterval (g0 :: g1 :: rest')).1.map (fun g => g.1 - g0.1))))) pin alpha := by
+          simp only [powerInterval]
+          rw [perturbative_zero_cr order ho alpha cr _ _ hz hl hzs]
+          exact pinNext_zero ll _ hzs alpha pin h
+        rw [hstep, ih _ _ _ _ (by rw [scaleBy_length _ pin alpha h]), scaleBy_scaleBy]
+        simp only [Nat.cast_one]
+        apply scaleBy_congr
+        intro a
+        generalize (takeInterval (g0 :: g1 :: rest')).2 = iv2
+        cases iv2 <;> rfl
+
+/-- **perturbative method, zero Raman efficiency, whole fibre with lumped losses**: at the fibre end every frequency
+carries `p · exp(−α (z_last − z_first)) · Π lumped factors strictly inside the fibre` – the plain attenuation law with
+each lumped loss exactly once, for every implemented order -/
+theorem perturbative_zero_cr_grid (order : Nat) (ho : order ≤ 4) (alpha : List ℝ) (cr : List (List ℝ)) (hz : MZero cr)
+    (hl : cr.length = alpha.length) (pin : List ℝ) (hp : pin.length = alpha.length) (g0 : ℝ × ℝ)
+    (rest : List (ℝ × ℝ)) (hne : rest ≠ []) :
+    perturbativeEnd order alpha cr pin (g0 :: rest)
+      = scaleBy (fun a => Real.exp (-(a * (lastD g0.1 (rest.map (·.1)) - g0.1)))
+          * Gnpy.Fiber.prodL (rest.dropLast.map (·.2))) pin alpha := by
+  simp only [perturbativeEnd, Nat.cast_one]
+  rw [perturbGo_zero_cr order ho alpha cr hz hl _ pin 1 (g0 :: rest) _ hp]
+  apply scaleBy_congr
+  intro a
+  rw [pertFactor_closed a _ 1 g0 rest (by simp) hne]
+  ring
+
 /-- **low-power limit of the perturbative method (order 1)**: with all launch powers scaled by `t` the exponent is
 `−α z + t · γ₁`; at `t = 0` it is the plain attenuation exponent -/
 theorem perturbative_low_power (alpha : List ℝ) (cr : List (List ℝ)) (p0 zs : List ℝ) (t : ℝ) :
